@@ -125,6 +125,10 @@ def closure_program(s, g, rng, tier):
     fe_t = ("q", fe) if g == 1 else ("q2", fe)
     regs.append(s.op(gp + ".map", fe_t))
     regs.append(s.op(gp + ".map2", fe_t, fe_t if rng.random() < 0.3 else (("q", G.rand_fe(1, rng)) if g == 1 else ("q2", G.rand_fe(2, rng)))))
+    from props import c14
+    for t0, t1 in c14.coinciding_inputs(g, rng, want=1, tries=40):
+        T_ = (lambda v: ("q", v)) if g == 1 else (lambda v: ("q2", v))
+        regs.append(s.op(gp + ".map2", T_(t0), T_(t1)))
     P = G.subgroup_point(g, rng)
     comp = rng.random() < 0.5
     d = s.op(gp + (".dec_c" if comp else ".dec_u"), V.b(EN.encode(g, P, comp)))
